@@ -45,6 +45,10 @@ type fwCase struct {
 	Val  byte   `json:"val"`
 	Raw  []byte `json:"raw"`
 	Key  string `json:"key"` // class key (for reporting)
+	// launch option classes: the SEV product (0 = the default pair Milan / Genoa)
+	Product int32 `json:"product,omitempty"`
+	// tdxtypes: section type written into sections of the example (index -> type)
+	Types map[string]uint32 `json:"types,omitempty"`
 }
 
 func le32(b []byte, v uint32) { binary.LittleEndian.PutUint32(b, v) }
@@ -128,6 +132,16 @@ func buildFw(c fwCase) []byte {
 			binary.LittleEndian.PutUint32(s[28:], c.Attr)
 		}
 		return img
+	case "tdxtypes":
+		img := fakeovmf.CleanExample(&fx.TB{}, 2*1024*1024)
+		for k, t := range c.Types {
+			var idx int
+			fmt.Sscanf(k, "%d", &idx)
+			le32(img[0x100+16+16+32*idx+24:], t)
+		}
+		return img
+	case "product":
+		return fakeovmf.CleanExample(&fx.TB{}, 2*1024*1024)
 	case "tdxfv":
 		img := fakeovmf.CleanExample(&fx.TB{}, 2*1024*1024)
 		bfv, cfv := img[0x100+16+16:], img[0x100+16+16+32:]
@@ -185,9 +199,13 @@ func runFw(raw json.RawMessage) error {
 			errs = append(errs, name)
 		}
 	}
-	_, err := sev.LaunchDigest(&sev.LaunchOptions{Vcpus: 2, Product: sevsnp.SevProduct_SEV_PRODUCT_MILAN}, img)
+	p1, p2 := sevsnp.SevProduct_SEV_PRODUCT_MILAN, sevsnp.SevProduct_SEV_PRODUCT_GENOA
+	if c.Kind == "product" {
+		p1, p2 = sevsnp.SevProduct_SevProductName(c.Product), sevsnp.SevProduct_SevProductName(c.Product)
+	}
+	_, err := sev.LaunchDigest(&sev.LaunchOptions{Vcpus: 2, Product: p1}, img)
 	note("LaunchDigest", err)
-	_, err = sev.UnsignedSnp(img, &sev.SnpEndorsementRequest{LaunchVmsas: 1, Product: sevsnp.SevProduct_SEV_PRODUCT_GENOA})
+	_, err = sev.UnsignedSnp(img, &sev.SnpEndorsementRequest{LaunchVmsas: 1, Product: p2})
 	note("UnsignedSnp", err)
 	note("ExtractFromFirmware", (&ovmf.SevData{SevEs: true, SevSnp: true}).ExtractFromFirmware(img))
 	banks := tdx.LaunchOptionsDefaultTDHOBBug("c3-standard-4").GuestRAMBanks
@@ -435,6 +453,21 @@ func RunC08(run *vk.Run) {
 				pos = r.Intn(size)
 			}
 			add(fwCase{Kind: "mutate", Size: size, Pos: pos, Val: []byte{0, 1, 0x7f, 0x80, 0xff, byte(r.Intn(256))}[r.Intn(6)], Key: "mutate"})
+		}
+	}
+	// every launch option: products the enumeration knows and values it does not
+	for _, p := range []int32{0, 1, 2, 3, 4, 5, 100, 1 << 30, -1} {
+		add(fwCase{Kind: "product", Product: p, Key: fmt.Sprintf("product=%d", p)})
+	}
+	// section types: every non-volume section of the example retyped (one or two at a time) to the
+	// types the format does not define / the tool does not support
+	for _, t := range []uint32{4, 5, 0x7fffffff, 0xffffffff} {
+		idxs := []int{1, 2, 3, 4, 5}
+		for a := 0; a < len(idxs); a++ {
+			add(fwCase{Kind: "tdxtypes", Types: map[string]uint32{fmt.Sprint(idxs[a]): t}, Key: fmt.Sprintf("tdxtypes one section of type %#x", t)})
+			for b := a + 1; b < len(idxs); b++ {
+				add(fwCase{Kind: "tdxtypes", Types: map[string]uint32{fmt.Sprint(idxs[a]): t, fmt.Sprint(idxs[b]): t}, Key: fmt.Sprintf("tdxtypes two sections of type %#x", t)})
+			}
 		}
 	}
 	add(fwCase{Kind: "raw", Raw: nil, Key: "empty"})
